@@ -77,6 +77,7 @@ func (s SCTP) SerializeTo(b gopacket.SerializeBuffer, opts gopacket.SerializeOpt
 
 func (sctp *SCTP) DecodeFromBytes(data []byte, df gopacket.DecodeFeedback) error {
 	if len(data) < 12 {
+		df.SetTruncated()
 		return errors.New("Invalid SCTP common header length")
 	}
 	sctp.SrcPort = SCTPPort(binary.BigEndian.Uint16(data[:2]))
@@ -190,14 +191,27 @@ type SCTPParameter struct {
 	Value        []byte
 }
 
-func decodeSCTPParameter(data []byte) SCTPParameter {
+// decodeSCTPParameter decodes the parameter at the start of data and returns
+// it together with the bytes following it.  The padding of the last parameter
+// of a chunk is not necessarily part of data.
+func decodeSCTPParameter(data []byte) (SCTPParameter, []byte, error) {
+	if len(data) < 4 {
+		return SCTPParameter{}, nil, errors.New("invalid SCTP parameter length")
+	}
 	length := binary.BigEndian.Uint16(data[2:4])
-	return SCTPParameter{
+	if length < 4 || int(length) > len(data) {
+		return SCTPParameter{}, nil, errors.New("invalid SCTP parameter length")
+	}
+	param := SCTPParameter{
 		Type:         binary.BigEndian.Uint16(data[0:2]),
 		Length:       length,
 		Value:        data[4:length],
 		ActualLength: roundUpToNearest4(int(length)),
 	}
+	if param.ActualLength > len(data) {
+		return param, nil, nil
+	}
+	return param, data[param.ActualLength:], nil
 }
 
 func (p SCTPParameter) Bytes() []byte {
@@ -425,6 +439,9 @@ func decodeSCTPInit(data []byte, p gopacket.PacketBuilder) error {
 	if err != nil {
 		return err
 	}
+	if chunk.ActualLength < 20 {
+		return errors.New("invalid SCTP init chunk length")
+	}
 	sc := &SCTPInit{
 		SCTPChunk:                      chunk,
 		InitiateTag:                    binary.BigEndian.Uint32(data[4:8]),
@@ -435,9 +452,12 @@ func decodeSCTPInit(data []byte, p gopacket.PacketBuilder) error {
 	}
 	paramData := data[20:sc.ActualLength]
 	for len(paramData) > 0 {
-		p := SCTPInitParameter(decodeSCTPParameter(paramData))
-		paramData = paramData[p.ActualLength:]
-		sc.Parameters = append(sc.Parameters, p)
+		param, rest, err := decodeSCTPParameter(paramData)
+		if err != nil {
+			return err
+		}
+		paramData = rest
+		sc.Parameters = append(sc.Parameters, SCTPInitParameter(param))
 	}
 	p.AddLayer(sc)
 	return p.NextDecoder(gopacket.DecodeFunc(decodeWithSCTPChunkTypePrefix))
@@ -486,6 +506,9 @@ func decodeSCTPSack(data []byte, p gopacket.PacketBuilder) error {
 	if err != nil {
 		return err
 	}
+	if chunk.ActualLength < 16 {
+		return errors.New("invalid SCTP sack chunk length")
+	}
 	sc := &SCTPSack{
 		SCTPChunk:                      chunk,
 		CumulativeTSNAck:               binary.BigEndian.Uint32(data[4:8]),
@@ -509,7 +532,10 @@ func decodeSCTPSack(data []byte, p gopacket.PacketBuilder) error {
 	}
 	sc.GapACKs = make([]uint16, 0, gapAcks)
 	sc.DuplicateTSNs = make([]uint32, 0, dupTSNs)
-	bytesRemaining := data[16:]
+	bytesRemaining := data[16:sc.ActualLength]
+	if len(bytesRemaining) < 2*int(sc.NumGapACKs)+4*int(sc.NumDuplicateTSNs) {
+		return errors.New("SCTP sack gap acks and duplicate TSNs exceed chunk length")
+	}
 	for i := 0; i < int(sc.NumGapACKs); i++ {
 		sc.GapACKs = append(sc.GapACKs, binary.BigEndian.Uint16(bytesRemaining[:2]))
 		bytesRemaining = bytesRemaining[2:]
@@ -575,9 +601,12 @@ func decodeSCTPHeartbeat(data []byte, p gopacket.PacketBuilder) error {
 	}
 	paramData := data[4:sc.Length]
 	for len(paramData) > 0 {
-		p := SCTPHeartbeatParameter(decodeSCTPParameter(paramData))
-		paramData = paramData[p.ActualLength:]
-		sc.Parameters = append(sc.Parameters, p)
+		param, rest, err := decodeSCTPParameter(paramData)
+		if err != nil {
+			return err
+		}
+		paramData = rest
+		sc.Parameters = append(sc.Parameters, SCTPHeartbeatParameter(param))
 	}
 	p.AddLayer(sc)
 	return p.NextDecoder(gopacket.DecodeFunc(decodeWithSCTPChunkTypePrefix))
@@ -631,9 +660,12 @@ func decodeSCTPError(data []byte, p gopacket.PacketBuilder) error {
 	}
 	paramData := data[4:sc.Length]
 	for len(paramData) > 0 {
-		p := SCTPErrorParameter(decodeSCTPParameter(paramData))
-		paramData = paramData[p.ActualLength:]
-		sc.Parameters = append(sc.Parameters, p)
+		param, rest, err := decodeSCTPParameter(paramData)
+		if err != nil {
+			return err
+		}
+		paramData = rest
+		sc.Parameters = append(sc.Parameters, SCTPErrorParameter(param))
 	}
 	p.AddLayer(sc)
 	return p.NextDecoder(gopacket.DecodeFunc(decodeWithSCTPChunkTypePrefix))
@@ -671,6 +703,9 @@ func decodeSCTPShutdown(data []byte, p gopacket.PacketBuilder) error {
 	chunk, err := decodeSCTPChunk(data)
 	if err != nil {
 		return err
+	}
+	if chunk.Length < 8 {
+		return errors.New("invalid SCTP shutdown chunk length")
 	}
 	sc := &SCTPShutdown{
 		SCTPChunk:        chunk,
